@@ -51,8 +51,9 @@ public:
             if (qApp->thread() != m_thread->thread()) {
                 m_thread->moveToThread(qApp->thread());
             }
-            QObject::connect(qApp, &QCoreApplication::aboutToQuit, m_thread,
-                             [this]() { resetOwnThread(); });
+            m_aboutToQuitConnection =
+                    QObject::connect(qApp, &QCoreApplication::aboutToQuit, m_thread,
+                                     [this]() { resetOwnThread(); });
         }
 
         QObject::connect(m_thread, &QThread::finished, m_thread, &QThread::deleteLater);
@@ -99,6 +100,10 @@ public:
             m_thread->terminate();
             m_thread->wait();
         }
+
+        // The thread object outlives this handler until its deleteLater() is processed: make sure
+        // aboutToQuit can no longer call into a handler that may be destroyed by then
+        QObject::disconnect(m_aboutToQuitConnection);
 
         m_thread.clear();
         m_worker = nullptr;
@@ -159,6 +164,7 @@ private:
 
 private:
     QPointer<QThread> m_thread;
+    QMetaObject::Connection m_aboutToQuitConnection;
     Worker *m_worker = nullptr;
     QMutex m_mutex;
     QAtomicInt m_pendingCount;
